@@ -252,6 +252,8 @@ class DepDomain(Domain):
             return self._union(v, idx)
         if isinstance(v, Tup) and self._has_dep(idx):
             return self._union(v, idx)
+        if isinstance(v, DictV) and not isinstance(v, MemoDict) and self._has_dep(idx):
+            return self._union(Tup([x for _, x in v.entries]), idx)        # one of the entries, chosen by idx
         return None
 
     def store_subscript(self, target, idx, val, node):
@@ -296,6 +298,7 @@ class DepDomain(Domain):
 
 class MemoDict(DictV):
     """a memo dict that tells the domain which values it holds (so in-place operations on them can be seen)."""
+    strict_keys = True
 
     def __init__(self, dom, name):
         DictV.__init__(self)
